@@ -37,7 +37,13 @@ func (m *minimiser) replay(s *Spec) (*ReplayOutcome, error) {
 	cmd := exec.Command(os.Args[0], "replay", "-in", p, "-sites", fmt.Sprint(m.sites), "-repeat", fmt.Sprint(m.repeat))
 	logp := filepath.Join(m.tmp, fmt.Sprintf("race-%d", m.tests))
 	cmd.Env = append(filterEnv(os.Environ(), "GORACE"), "GORACE=halt_on_error=0 exitcode=0 atexit_sleep_ms=0 history_size=3 log_path="+logp)
+	timer := time.AfterFunc(3*time.Minute, func() {
+		if cmd.Process != nil {
+			_ = cmd.Process.Kill() // a candidate that blocks for real counts as "does not reproduce"
+		}
+	})
 	out, err := cmd.Output()
+	timer.Stop()
 	if matches, _ := filepath.Glob(logp + ".*"); len(matches) > 0 {
 		for _, f := range matches {
 			os.Remove(f)
